@@ -63,4 +63,12 @@ NoDouble(applied, txs) == /\ \A i \in 1..Len(txs) : txs[i].id \notin applied
                           /\ \A i, j \in 1..Len(txs) : i # j => txs[i].id # txs[j].id
 Consecutive(pre, txs) == \A i \in 1..Len(txs) : txs[i].nonce = BaseNonce(pre, txs[i].from) + Earlier(txs, i) + 1
 EpochMatch(pre, txs) == \A i \in 1..Len(txs) : txs[i].epoch = pre.epoch
+\* the nonce a transaction consumed stays recorded for its signer (an account whose nonce record disappears inside an
+\* epoch can be made to apply the same transaction again); not evaluated on the block that finishes an epoch, where
+\* the epoch moves on and dust accounts are legitimately cleared
+NonceRecorded(pre, post, txs) ==
+    \A i \in 1..Len(txs) :
+        LET s == txs[i].from IN
+        /\ Has(post, s) /\ Acct(post, s).epoch = pre.epoch
+        /\ Acct(post, s).nonce = BaseNonce(pre, s) + Cardinality({j \in 1..Len(txs) : txs[j].from = s})
 =============================================================================
